@@ -12,7 +12,8 @@ import (
 // Generators of suite "ecs":
 //
 //  (ii)  exhaustive: every history of exactly L steps over a 9-letter alphabet of spawn / bulk spawn /
-//        annihilate (also stale, double, duplicated) steps over 3 components; every spawned entity
+//        annihilate (also stale, double, duplicated) steps over 3 components (quick L=5, thorough
+//        L=6), and of L+1 steps over a 6-letter core alphabet (quick 6, thorough 7); every spawned entity
 //        gets distinctive component values written; the case ends with a fixed observation battery
 //        (alive of every name, 14 filters, every component column through the iterator, reads).
 //  (iii) random structured histories up to 400 steps with 70..140 registered components (masks of two
@@ -379,39 +380,47 @@ func ecsGen(rng *proto.RNG, tier string, shard, nshards int, w *bufio.Writer) {
 		}
 		caseNo++
 	}
-	// (ii) exhaustive histories of exactly L steps (shorter ones are prefixes: every op answers)
-	L := 5
-	if tier == "thorough" {
-		L = 6
-	}
-	idx := make([]int, L)
-	for {
-		if caseNo%nshards == shard {
-			g := &gen{rng: rng}
-			g.reg(3)
-			for _, a := range idx {
-				g.letter(a)
+	// (ii) exhaustive histories of exactly L steps over the given letters (shorter histories are
+	// prefixes: every op answers)
+	sweep := func(L int, letters []int) {
+		idx := make([]int, L)
+		for {
+			if caseNo%nshards == shard {
+				g := &gen{rng: rng}
+				g.reg(3)
+				for _, a := range idx {
+					g.letter(letters[a])
+				}
+				g.observe3()
+				emit(g.lines)
+			} else {
+				caseNo++
 			}
-			g.observe3()
-			emit(g.lines)
-		} else {
-			caseNo++
-		}
-		k := L - 1
-		for k >= 0 {
-			idx[k]++
-			if idx[k] < nLetters {
+			k := L - 1
+			for k >= 0 {
+				idx[k]++
+				if idx[k] < len(letters) {
+					break
+				}
+				idx[k] = 0
+				k--
+			}
+			if k < 0 {
 				break
 			}
-			idx[k] = 0
-			k--
-		}
-		if k < 0 {
-			break
 		}
 	}
+	all := []int{0, 1, 2, 3, 4, 5, 6, 7, 8}
+	core := []int{0, 1, 4, 5, 6, 8} // spawn 1, spawn 1 2, spawnn 2 3, kill 0, kill 1, killn 1 0 1
+	if tier == "thorough" {
+		sweep(6, all)
+		sweep(7, core)
+	} else {
+		sweep(5, all)
+		sweep(6, core)
+	}
 	// (iii) random structured, (iv) malformed
-	nRandom, maxOps := 400, 400
+	nRandom, maxOps := 800, 400
 	if tier == "thorough" {
 		nRandom, maxOps = 6000, 400
 	}
